@@ -163,7 +163,12 @@ def inline_property(run, ctx, e):
     for t in run.types.expr(e.value, ctx):
         if isinstance(t, str) and t.startswith('inst:'):
             fi = run.prog.find_method(t[5:], e.attr)
-            if fi is None or not fi.is_property:
+            if fi is None:
+                if t[5:] in run.prog.classes and (run.types.field_types(t[5:], e.attr)
+                                                  or run.prog.class_attr(t[5:], e.attr) is not None):
+                    return None          # a plain field on some receiver: not a property access
+                continue                 # receiver type without the attribute: cannot be the runtime type here
+            if not fi.is_property:
                 return None
             getters.add(fi)
     if len(getters) != 1:
@@ -236,7 +241,7 @@ def literals_of(run, g, rd, tnode, polarity):
     return out
 
 
-def path_conditions(run, g, rd, start, target, limit=5000, through_exc=False):
+def path_conditions(run, g, rd, start, target, limit=5000, through_exc=False, prune=True):
     """Literal sets of every simple path start -> target (non-exception edges)."""
     out = []
     count = [0]
@@ -256,6 +261,9 @@ def path_conditions(run, g, rd, start, target, limit=5000, through_exc=False):
             add = set()
             if n.kind == 'test' and l in ('true', 'false'):
                 add = literals_of(run, g, rd, n, l == 'true')
+                # a path asserting an atom both ways is infeasible (atoms are pure reads of unchanged operands)
+                if prune and any((t, not p) in lits for (t, p) in add):
+                    continue
             rec(m, seen | {m}, lits | add)
     rec(start, {start}, set())
     return out
@@ -263,3 +271,73 @@ def path_conditions(run, g, rd, start, target, limit=5000, through_exc=False):
 
 def has(lits, text, pol):
     return (text, pol) in lits
+
+
+# ------------------------------------------------------------------------------ integer intervals
+ATOM_AST = {}
+INF = float('inf')
+
+
+def _register_atoms(e):
+    for x in walk_no_nested(e):
+        if isinstance(x, (ast.Compare, ast.Call, ast.Attribute, ast.Name)):
+            ATOM_AST.setdefault(U(x), x)
+
+
+def interval_of(run, ctx, lits, var_text, integer=True):
+    """Tightest [lo, hi] for the integer quantity ``var_text`` implied by comparison literals."""
+    lo, hi = -INF, INF
+    for (txt, pol) in lits:
+        try:
+            e = ast.parse(txt, mode='eval').body
+        except SyntaxError:
+            continue
+        if not (isinstance(e, ast.Compare) and len(e.ops) == 1):
+            continue
+        l, r, op = e.left, e.comparators[0], e.ops[0]
+        if U(r) == var_text and U(l) != var_text:
+            l, r = r, l
+            op = {ast.Lt: ast.Gt, ast.LtE: ast.GtE, ast.Gt: ast.Lt, ast.GtE: ast.LtE}.get(type(op), type(op))()
+        if U(l) != var_text:
+            continue
+        from ..consteval import fold
+        k = fold(run, r, ctx)
+        if not isinstance(k, int) or isinstance(k, bool):
+            continue
+        t = type(op)
+        if not pol:
+            t = {ast.Lt: ast.GtE, ast.LtE: ast.Gt, ast.Gt: ast.LtE, ast.GtE: ast.Lt, ast.Eq: ast.NotEq,
+                 ast.NotEq: ast.Eq}.get(t)
+        if t is ast.Lt:
+            hi = min(hi, k - 1)
+        elif t is ast.LtE:
+            hi = min(hi, k)
+        elif t is ast.Gt:
+            lo = max(lo, k + 1)
+        elif t is ast.GtE:
+            lo = max(lo, k)
+        elif t is ast.Eq:
+            lo = max(lo, k)
+            hi = min(hi, k)
+    return lo, hi
+
+
+def struct_format(run, ctx, call):
+    """Format string of a call to a bound struct pack/unpack kept in a class attribute; None if not one."""
+    fn = call.func
+    if not isinstance(fn, ast.Attribute):
+        return None
+    for t in run.types.expr(fn.value, ctx):
+        if isinstance(t, str) and (t.startswith('cls:') or t.startswith('inst:')):
+            q = t.split(':', 1)[1]
+            ca = run.prog.class_attr(q, fn.attr)
+            if ca is None:
+                continue
+            for v in ca[1]:
+                if isinstance(v, ast.Attribute) and v.attr in ('pack', 'unpack') and isinstance(v.value, ast.Call) \
+                        and v.value.args and isinstance(v.value.args[0], ast.Constant):
+                    fmt = v.value.args[0].value
+                    if isinstance(fmt, bytes):
+                        fmt = fmt.decode('ascii')
+                    return (v.attr, fmt)
+    return None
